@@ -73,7 +73,18 @@ int errno_of(const std::string& kind) {
 }  // namespace
 
 namespace sim {
-void shim_reset() { for (auto& f : fdtab) f.used = false; }
+static char* g_stdio_bufs[64]; static int g_n_stdio_bufs = 0;   // buffers handed to setvbuf: released at the next reset
+void shim_reset() {
+  for (auto& f : fdtab) f.used = false;
+  for (int i = 0; i < g_n_stdio_bufs; ++i) free(g_stdio_bufs[i]);
+  g_n_stdio_bufs = 0;
+}
+char* stdio_buf_for_stream(size_t n) {
+  if (g_n_stdio_bufs >= 64) return nullptr;
+  char* b = (char*)malloc(n);
+  if (b) g_stdio_bufs[g_n_stdio_bufs++] = b;
+  return b;
+}
 int (*system_hook)(const char* cmd) = nullptr;
 }  // namespace sim
 
@@ -363,6 +374,10 @@ extern "C" FILE* fopen(const char* path, const char* mode) {
   cookie_io_functions_t io = {ck_read, ck_write, ck_seek, ck_close};
   FILE* fp = fopencookie(ck, mode, io);
   if (!fp) { REAL(int, close, int); real_close(fd); free(ck); }
+  else if (g.active && g.stdio_bufsize > 0) {
+    // glibc ignores the size when no buffer is given: hand it one
+    if (char* b = sim::stdio_buf_for_stream((size_t)g.stdio_bufsize)) setvbuf(fp, b, _IOFBF, (size_t)g.stdio_bufsize);
+  }
   return fp;
 }
 
